@@ -4,7 +4,7 @@ ENGINES = [
     dict(name="driver", path="vf/driver.py", serves_properties=[], kind_free_text="builds targets against /repo's current tree, runs shards on 16 cores, merges reports, known-findings logic, evidence writer"),
     dict(name="corpus+slots", path="vf/gen.py harness/engine.hpp harness/corpus_main.hpp model/peg_model.hpp", serves_properties=["C01", "C02", "C04", "C05", "C06", "C08", "C09"], kind_free_text="generate-compile-run grammar corpus and slot shapes, observer control with match() wrapper, reference PEG model, rapidcheck scripts"),
     dict(name="zoo", path="targets/c02_zoo.cpp", serves_properties=["C02", "C06"], kind_free_text="rule zoo: every hand-written match() rule in rewinding contexts on exhaustive short inputs, invariants from the observer control"),
-    dict(name="enumerators+rapidcheck", path="targets/", serves_properties=["C17"], kind_free_text="total enumeration of finite spaces plus rapidcheck generators, explicit independent oracles"),
+    dict(name="enumerators+rapidcheck", path="targets/", serves_properties=["C10", "C17"], kind_free_text="total enumeration of finite spaces plus rapidcheck generators, explicit independent oracles"),
 ]
 NOTES = "All checks: ./check <id> --tier quick|thorough [--replay FILE]; seeds from VERIF_SEED; budgets are case counts."
 NOT_YET = {}
@@ -52,6 +52,12 @@ CLAIMS = {
         text="Exploration: every convenience/contrib rule of the statement over adversarial scripted sub-rules (consume-then-fail with rewinding only when required, empty success, raise, throw), bounds 0..4, in three contexts (thorough: nested pairs), plus random mixed grammars and the byte-level rules on exhaustive short strings; compared (result, consumed prefix, blamed rule/message, per-invocation verdicts) with the [Equivalent] expansion from doc/Rule-Reference.md run through an independent interpreter. Found the opt_must defect (fixed, f97be25).",
         design_ref="DESIGN.md sections 1.1-1.4, 2 C09",
         note=CORPUS_NOTE),
+    "C10": dict(
+        engine="enumerators+rapidcheck",
+        technique="exhaustive enumeration of candidate units against independent decoders (Unicode table 3-7, D90/D91, shift arithmetic)",
+        text="Exploration, exhaustive where the space allows: all bytes for ~60 byte-class rules, istring<C> for all C, all 1-3 byte UTF-8 sequences and a boundary lattice (thorough: all) of 4-byte ones, all UTF-16 units with boundary (thorough: all surrogate-lead) second units, UTF-32 and uint32 boundary+strided (thorough: all 2^32), all uint16 values, structured+random uint64 values; consumed==N iff the unit is well formed and in the documented set. Candidates are followed by bytes that would complete a truncated unit, so reads beyond the logical end change the verdict.",
+        design_ref="DESIGN.md section 2 C10",
+        note="Trusted: the reference decoders in targets/c10_classes.cpp (typed from the standard), the finite family of template parameters."),
     "C17": dict(
         engine="enumerators+rapidcheck",
         technique="exhaustive enumeration + rapidcheck against an independent UTF-8/UTF-16 reference encoder",
